@@ -1018,9 +1018,10 @@ func (a *act) lockObl(loc *Loc, write bool, guard string, pos token.Pos, st *Sta
 	}
 	held := a.fx.sv(st, "held", ArrS(SRef, SInt))
 	lk := fmt.Sprintf("(sub %s %d)", loc.Owner, idx)
-	need := fmt.Sprintf("(>= %s 1)", Sel(held, lk))
+	// held: 0 = not held by this thread, n > 0 = n read holds, -1 = write hold
+	need := fmt.Sprintf("(not (= %s 0))", Sel(held, lk))
 	if write {
-		need = fmt.Sprintf("(= %s 2)", Sel(held, lk))
+		need = fmt.Sprintf("(= %s (- 1))", Sel(held, lk))
 	}
 	fresh := fmt.Sprintf("(>= (epoch %s) %s)", loc.Owner, a.fx.nowEntry)
 	mode := "read"
